@@ -529,3 +529,4 @@ MANIFEST = {
             "intra-procedural with summaries for the validators (validate_ndinfo/validate_units return fresh storage).",
     "technique": "CFG dominance + intra-procedural may-alias/freshness analysis + in-place/copy sibling agreement (AST)",
 }
+MANIFEST["text"] += ' Also: Ellipsis is expanded before the index is padded to ndim and stands for ndim − (len − 1) slices; validate_ndinfo returns a flattened or rank-checked array.'
